@@ -23,6 +23,9 @@ from ref import ref_frame, ref_crc16_xmodem
 BOUNDARY = ("get", "event-wait", "join", "ctl")
 DET_GENS = (1, 2, 5, 6, 7, 8, 10)
 RND_GENS = (0, 3, 4, 9)
+# in oracle runs the sine generator (9) is judged by value against math.sin (it is deterministic and must restart
+# with the others); in correspondence runs it stays masked because the Lean model does not compute sines
+ORACLE_MODE = [False]
 DEFAULT_TABLE = [(10, 1, 0, "chan0", 0), (10, 1, 0, "chan1", 1), (10, 1, 0, "chan2", 2), (10, 2, 0, "chan3", 3),
                  (10, 3, 0, "chan4", 4), (10, 3, 0, "chan5", 5), (18, 64, 0, "chan6", 6), (3, 3, 1, "chan7", 7),
                  (1, 0, 16, "chan8", 8), (10, 3, 0, "chan9", 9), (0, 0, 0, "", None)]
@@ -321,7 +324,8 @@ def mask_stream(payload, chans):
     out = bytearray(payload[:1])
     for cid, data, meta in ss:
         out.append(cid)
-        out += bytes(len(data)) if chans[cid]["gen"] in RND_GENS else data
+        masked = chans[cid]["gen"] in RND_GENS and not (ORACLE_MODE[0] and chans[cid]["gen"] == 9)
+        out += bytes(len(data)) if masked else data
         out += meta
     return bytes(out)
 
@@ -575,6 +579,12 @@ def det_next(gen, state, vdim=1):
         return ("num", [1, 0, -1], [state["c"]])
     if gen == 8:
         return ("num", [], list(b"hello" + bytes(11)))
+    if gen == 9:
+        import math
+        c = state.get("c", 0)
+        x = 2 * math.pi * c / 500
+        state["c"] = (c + 1) % 500
+        return ("num", [math.sin(x), math.sin(x + (2 * math.pi / 3)), math.sin(x + (4 * math.pi / 3))], [])
     if gen == 10:
         state["c"] = state.get("c", 0) + 1
         if state["c"] > 1000:
@@ -691,7 +701,7 @@ class Judge:
                 g = chans[c]["gen"]
                 if g is None:
                     continue
-                if g in DET_GENS:
+                if g in DET_GENS or (g == 9 and ORACLE_MODE[0]):
                     v = det_next(g, gst[c], chans[c]["vdim"])
                     if v is not None:
                         exp.append((c, v))
@@ -831,12 +841,16 @@ def judge(defs, ops, out, info):
 
 def oracle_line(line):
     defs, ops = parse_line(line)
+    ORACLE_MODE[0] = True
     try:
-        out, info = run_history(defs, ops)
-    except Exception as e:  # noqa: BLE001
-        return {"key": "device-hangs", "what": f"the history does not run to completion: {type(e).__name__}: {e}",
-                "expected": "every op returns", "observed": type(e).__name__}
-    return judge(defs, ops, out, info)
+        try:
+            out, info = run_history(defs, ops)
+        except Exception as e:  # noqa: BLE001
+            return {"key": "device-hangs", "what": f"the history does not run to completion: {type(e).__name__}: {e}",
+                    "expected": "every op returns", "observed": type(e).__name__}
+        return judge(defs, ops, out, info)
+    finally:
+        ORACLE_MODE[0] = False
 
 
 F17_LINE = None
